@@ -123,7 +123,16 @@ func c10Run(t *testing.T, c *choice.Stream, r *Result, opt RunOpt, forced *c10Fo
 		// a read times out would follow the stream to its end.
 		streaming := forced == nil && sc.kind == "select" && c.Bool("streaming", 1, 6)
 		var cancelAtTime time.Duration
-		if streaming {
+		// ... or a server that has taken the query and says nothing at all: the
+		// connection is idle and healthy when the cancellation comes, so nothing
+		// stands in the way of the Cancel packet
+		idle := streaming && c.Bool("streaming.idle", 1, 3)
+		if idle {
+			streaming = true
+			sc.script = append([]simnet.Step{}, sc.script[:sc.afterHandshake+2]...)
+			cancelAtTime = time.Duration(c.Pick("idle.cancel.ms", 1, 20, 500, 2500, 3500, 9000)) * time.Millisecond
+		}
+		if streaming && !idle {
 			cut := sc.afterHandshake + 2 // after the Query and the external-data terminator
 			script := append([]simnet.Step{}, sc.script[:cut]...)
 			gap := time.Duration(c.Pick("stream.gap.ms", 5, 100, 400)) * time.Millisecond
@@ -167,6 +176,7 @@ func c10Run(t *testing.T, c *choice.Stream, r *Result, opt RunOpt, forced *c10Fo
 			}
 			if stuckSince < 0 {
 				stuckSince = e.Sim.Now()
+				e.Sim.WakeAfter(2*cf.EffReadTimeout() + time.Millisecond) // a client without a read timeout sets no timer of its own
 			}
 			// the writer is blocked for good, or (everything fitted into the window)
 			// the client has been waiting for an answer that cannot come
@@ -343,6 +353,11 @@ func c10Run(t *testing.T, c *choice.Stream, r *Result, opt RunOpt, forced *c10Fo
 		}
 		return func() {
 			defer func() { mainDone = true }()
+			if idle {
+				// nothing else keeps the clock moving towards the cancellation (a
+				// client without a read timeout sets no timer at all)
+				e.Sim.WakeAfter(cancelAtTime)
+			}
 			if useDeadline {
 				ctx, cancel = context.WithTimeout(context.Background(), dl)
 				defer cancel()
@@ -494,6 +509,12 @@ func c10Run(t *testing.T, c *choice.Stream, r *Result, opt RunOpt, forced *c10Fo
 				r.Violate("cancel-packet", "cancel-bytes", "the goroutine that closed the connection wrote % x after cancellation; a Cancel packet is the single byte 03", trunc(tail, 32))
 			} else if len(tail) == 1 {
 				r.Probe("cancel_packet_sent")
+			} else if idle && conn.StopReadAt < 0 && conn.Window == 0 {
+				r.Violate("cancel-packet", "cancel-missing", "the query was cancelled while the server was silent and the connection idle and writable, yet no Cancel packet was written before the connection was closed (read timeout %v)", cf.ReadTimeout)
+			} else if conn.StopReadAt < 0 && conn.Window == 0 && !conn.CloseErr {
+				// nothing stood in the way of the one byte: the peer was reading, no
+				// back-pressure, no write fault
+				r.Probe("cancel_packet_missing_on_healthy_conn:" + gateName)
 			}
 		}
 	})
